@@ -44,6 +44,48 @@ Theorem C15_true_iff_written_on_the_line :
 Proof. exact setbyuser_iff_written. Qed.
 Print Assumptions C15_true_iff_written_on_the_line.
 
+(** ... and the arguments, read off the command line under the same hypotheses: the flag of an argument is raised only
+    by a positional token that is written on the line (one of the reading's positionals is bound to it), so a line
+    without positional tokens leaves every argument's flag down — whatever the environment and the defaults are *)
+Theorem C15_arg_flag_needs_a_positional :
+  forall (parse_float : str -> option str) (getenv : str -> str)
+         (ds : list decl) (spec : str) (i : inited) (argv : list str) (opts' args' : list container) (u : list vs),
+    do_init parse_float getenv ds spec = IOk i ->
+    sane (optinfo_of (i_opts i)) = true -> no_dd_graph (i_graph i) = true ->
+    view (optinfo_of (i_opts i)) argv = Some u ->
+    fsm_parse parse_float i argv = PAccept opts' args' ->
+    forall k c, nth_error args' k = Some c -> ct_user c = true -> exists v, In v (poss u).
+Proof. exact setbyuser_arg_needs_a_positional. Qed.
+Print Assumptions C15_arg_flag_needs_a_positional.
+
+Theorem C15_no_positional_no_arg_flag :
+  forall (parse_float : str -> option str) (getenv : str -> str)
+         (ds : list decl) (spec : str) (i : inited) (argv : list str) (opts' args' : list container) (u : list vs),
+    do_init parse_float getenv ds spec = IOk i ->
+    sane (optinfo_of (i_opts i)) = true -> no_dd_graph (i_graph i) = true ->
+    view (optinfo_of (i_opts i)) argv = Some u -> poss u = [] ->
+    fsm_parse parse_float i argv = PAccept opts' args' ->
+    Forall (fun c => ct_user c = false) args'.
+Proof. exact no_positional_no_arg_flag. Qed.
+Print Assumptions C15_no_positional_no_arg_flag.
+
+(** non-vacuity of the last one: "[-f] [X]" with X backed by the environment variable XV, line "-f": accepted, the line
+    reads cleanly and has no positional; the argument holds the environment's value and its flag is down *)
+Example C15_no_positional_nonvacuous :
+  let pf := fun _ : str => None in
+  let ge := fun k : str => if str_eqb k (lit "XV") then lit "e" else [] in
+  let ds := [mkDecl true KBool (lit "f") [] [] false (VBool false) true;
+             mkDecl false KString (lit "X") [] (lit "XV") false (VStr []) true] in
+  match do_init pf ge ds (lit "[-f] [X]") with
+  | IOk i => match view (optinfo_of (i_opts i)) [lit "-f"], fsm_parse pf i [lit "-f"] with
+             | Some u, PAccept [o] [a] =>
+                 (sane (optinfo_of (i_opts i)), no_dd_graph (i_graph i), poss u, ct_user o, ct_user a, ct_fromenv a)
+             | _, _ => (false, false, [], false, true, false)
+             end
+  | _ => (false, false, [], false, true, false)
+  end = (true, true, [], true, false, true).
+Proof. vm_compute. reflexivity. Qed.
+
 (** non-vacuity: "-f" with F set in the environment and "x" on the line: the flag of the option
     stays false (environment), the flag of the argument is raised (command line) *)
 Example C15_nonvacuous :
